@@ -106,7 +106,7 @@ Proof.
   pose proof (get_table_In _ _ _ G) as [Gin _].
   destruct (negb (forallb (fun a => Nat.ltb (fst a) (ncols tb)) asg)).
   { destruct (select_from 0 wh (t_rows tb)); [contradiction|inversion E]. }
-  destruct (plan_updates d tb asg (select_from 0 wh (t_rows tb))) as [ups| |] eqn:EP; try (inversion E; fail).
+  destruct (plan_updates d tb asg (select_from 0 wh (t_rows tb))) as [ups|] eqn:EP; try (inversion E; fail).
   destruct (plan_updates_spec _ _ _ _ _ EP) as [ESEL PL]. rewrite Forall_forall in PL.
   rewrite <- ESEL in Hsel. apply in_map_iff in Hsel. destruct Hsel as [u [Eu Hu]]. inversion Eu as [[Ei Er]].
   destruct (PL u Hu) as [Ha' [_ [_ Hv]]]. rewrite Er in Ha'. rewrite Ha in Ha'. injection Ha' as En. subst nr.
